@@ -20,7 +20,9 @@ CONSTANTS NN,      \* number of nodes (0..NN-1)
           Snks,    \* sequence of sink nodes (disjoint from the sources)
           Edges,   \* set of <<i, j>> that may carry weight; other entries are 0
           MaxW,    \* weights are 0..MaxW
-          Emit
+          Emit,
+          ShardK, ShardM   \* only the graphs whose weight sum is ShardK mod ShardM (1: all);
+                           \* lets the single-threaded emission be split over several TLC runs
 
 VARIABLES W,        \* the net-flux matrix (input)
           queue,    \* list of nodes to check (may hold a node more than once)
@@ -40,8 +42,11 @@ T == Rng(Snks)
 Mat(f) == [i \in 1..NN |-> [j \in 1..NN |->
              IF <<i - 1, j - 1>> \in Edges THEN f[<<i - 1, j - 1>>] ELSE 0]]
 
+EdgeSeq == SetToSeq(Edges)
+InShard(f) == ShardM = 1 \/ SumSeq([k \in 1..Len(EdgeSeq) |-> f[EdgeSeq[k]]]) % ShardM = ShardK
+
 Init ==
-  /\ \E f \in [Edges -> 0..MaxW] : W = Mat(f)
+  /\ \E f \in [Edges -> 0..MaxW] : InShard(f) /\ W = Mat(f)
   /\ queue = Srcs
   /\ visited = [v \in Nodes |-> FALSE]
   /\ prev = [v \in Nodes |-> -1]
